@@ -694,7 +694,7 @@ func c03Table(c *Ctx, r *Report) {
 			}
 		}
 	}
-	r.floor("C03.TABLE", "lookups in constant tables", n, 8)
+	r.floor("C03.TABLE", "lookups in constant tables", n, 2)
 }
 
 // ---- REFLECT -------------------------------------------------------------------------
